@@ -348,14 +348,14 @@ impl LdapResultExt {
             _ => return None,
         };
         let mut tags = t.expect_constructed()?.into_iter();
-        let rc = match parse_uint(
-            tags.next()?
-                .match_class(TagClass::Universal)
-                .and_then(|t| t.match_id(Types::Enumerated as u64))
-                .and_then(|t| t.expect_primitive())?
-                .as_slice(),
-        ) {
-            Ok((_, rc)) => rc as u32,
+        let rc_octets = tags
+            .next()?
+            .match_class(TagClass::Universal)
+            .and_then(|t| t.match_id(Types::Enumerated as u64))
+            .and_then(|t| t.expect_primitive())?;
+        // A result code which doesn't fit must not be truncated: a refusal could read as success.
+        let rc = match parse_uint(rc_octets.as_slice()) {
+            Ok((_, rc)) if rc_octets.len() <= 8 => u32::try_from(rc).ok()?,
             _ => return None,
         };
         let matched = String::from_utf8(tags.next()?.expect_primitive()?).ok()?;
